@@ -8,6 +8,8 @@ import (
 	"strings"
 
 	"github.com/lindb/lindb/kv"
+	"github.com/lindb/lindb/kv/table"
+	"github.com/lindb/lindb/pkg/bufioutil"
 	"github.com/lindb/lindb/tsdb/tblstore/metricsdata"
 
 	"github.com/lindb/lindb/zzverif/internal/core"
@@ -490,6 +492,9 @@ type famCase struct {
 	allFree bool // no first/last field anywhere
 	// failKey: the stable key under which a compaction failure of THIS case's known shape is reported
 	failKey string
+	// faultAt >= 0: the output file with this index cannot be created during the NEXT compaction
+	// (injected through the table builder's writer seam, table.VerifC01SetNewWriter)
+	faultAt int
 	// silent: no protocol lines (regions without model counterpart: only the impl-side oracle speaks)
 	silent bool
 }
@@ -702,10 +707,41 @@ func (fc *famCase) compact(r *rand.Rand, threshold int, maxMode string, optMax u
 		sizeWord = strings.Join(sw, ",")
 	}
 	before, _ := fc.env.levels()
+	faultAt, faultHit := fc.faultAt, false
+	fc.faultAt = -1
+	var restore func()
+	if faultAt >= 0 {
+		created := 0
+		restore = table.VerifC01SetNewWriter(func(fileName string) (bufioutil.BufioWriter, error) {
+			created++
+			if created-1 == faultAt {
+				faultHit = true
+				return nil, fmt.Errorf("injected: output file %d cannot be created", faultAt)
+			}
+			return bufioutil.NewBufioStreamWriter(fileName)
+		})
+	}
 	cerr, p := fc.env.compact()
+	if restore != nil {
+		restore()
+	}
 	after, _ := fc.env.levels()
 	out := ""
 	switch {
+	case faultHit && p == nil && cerr != nil:
+		// the injected fault made the merge fail: nothing may have been installed
+		out = "fail"
+		failed = true
+		c.Branch("fam/compact-io-fault")
+		if showFiles(before[0]) != showFiles(after[0]) || showFiles(before[1]) != showFiles(after[1]) {
+			c.Fail("compact-fail-changed-version", fmt.Sprintf("compaction returned %v but the version changed: L0:%s L1:%s -> L0:%s L1:%s",
+				cerr, showFiles(before[0]), showFiles(before[1]), showFiles(after[0]), showFiles(after[1])))
+		}
+	case faultHit && (p != nil || cerr == nil):
+		out = "fail"
+		failed = true
+		c.Fail("compact-fault-not-reported", fmt.Sprintf("output file %d could not be created, compaction: panic=%v err=%v; L0:%s L1:%s -> L0:%s L1:%s",
+			faultAt, p, cerr, showFiles(before[0]), showFiles(before[1]), showFiles(after[0]), showFiles(after[1])))
 	case p != nil || cerr != nil:
 		out = "fail"
 		failed = true
@@ -741,7 +777,11 @@ func (fc *famCase) compact(r *rand.Rand, threshold int, maxMode string, optMax u
 			c.Branch("fam/L1-files>1")
 		}
 	}
-	c.Op(fmt.Sprintf("compact %d %d %s", threshold, max, sizeWord), out+" "+fc.levelsText())
+	opLine := fmt.Sprintf("compact %d %d %s", threshold, max, sizeWord)
+	if faultAt >= 0 {
+		opLine += fmt.Sprintf(" %d", faultAt)
+	}
+	c.Op(opLine, out+" "+fc.levelsText())
 	if maxMode == "mid" {
 		kv.VerifC03SetMaxFileSize(fc.env.fam, 0)
 	}
@@ -869,6 +909,29 @@ func (fc *famCase) view(metric uint32) {
 	})
 }
 
+// viewRepeat reads the metric n times: the files of a level are kept in a Go map, every read may
+// visit them in another order. The first read is mirrored as a protocol line, the others only checked.
+func (fc *famCase) viewRepeat(metric uint32, n int) {
+	fc.view(metric)
+	was := fc.silent
+	fc.silent = true
+	for i := 1; i < n; i++ {
+		fc.view(metric)
+	}
+	fc.silent = was
+}
+
+func (fc *famCase) viewAllRepeat(n int) {
+	var ms []uint32
+	for m := range fc.flushed {
+		ms = append(ms, m)
+	}
+	sort.Slice(ms, func(i, j int) bool { return ms[i] < ms[j] })
+	for _, m := range ms {
+		fc.viewRepeat(m, n)
+	}
+}
+
 func (fc *famCase) viewAll() {
 	var ms []uint32
 	for m := range fc.flushed {
@@ -889,7 +952,7 @@ func newFamCase(c *core.Ctx, optMax uint32, threshold int) *famCase {
 	if !silentFamilies {
 		c.Op("reset", "ok")
 	}
-	return &famCase{c: c, env: env, silent: silentFamilies, schemas: map[uint32]schema{}, flushed: map[uint32]map[cell][]int64{},
+	return &famCase{c: c, env: env, silent: silentFamilies, faultAt: -1, schemas: map[uint32]schema{}, flushed: map[uint32]map[cell][]int64{},
 		series: map[uint32]map[uint32]bool{}, fields: map[uint32]map[int]int{}}
 }
 
@@ -915,8 +978,24 @@ func (a area) runFamilyCase(c *core.Ctx, r *rand.Rand) {
 	defer fc.env.close()
 	nMetrics := 1 + r.Intn(4)
 	metricIDs := []uint32{}
-	for _, i := range r.Perm(9)[:nMetrics] {
-		metricIDs = append(metricIDs, uint32(3+i*5))
+	// sparse-ids: the metric ids come in three far-apart bands and most flushes write one band only, so
+	// that level-0 files lie entirely below / above level-1 files they do not overlap and a merged output
+	// can span an unpicked level-1 file (level-1 key ranges overlap afterwards)
+	banded := r.Intn(4) == 0
+	bandOf := map[uint32]int{}
+	if banded {
+		c.Branch("fam/sparse-ids")
+		nMetrics = 3 + r.Intn(4)
+		for j, i := range r.Perm(9)[:nMetrics] {
+			band := j % 3
+			id := []uint32{1, 100, 1000}[band] + uint32(i)
+			metricIDs = append(metricIDs, id)
+			bandOf[id] = band
+		}
+	} else {
+		for _, i := range r.Perm(9)[:nMetrics] {
+			metricIDs = append(metricIDs, uint32(3+i*5))
+		}
 	}
 	sort.Slice(metricIDs, func(i, j int) bool { return metricIDs[i] < metricIDs[j] })
 	pool := genSeriesPool(r)
@@ -949,6 +1028,9 @@ func (a area) runFamilyCase(c *core.Ctx, r *rand.Rand) {
 			if mm == "mid" && r.Intn(3) == 0 {
 				mm = "huge"
 			}
+			if r.Intn(6) == 0 {
+				fc.faultAt = r.Intn(3)
+			}
 			if fc.compact(r, threshold, mm, optMax) {
 				splitFailed = true
 			}
@@ -956,13 +1038,24 @@ func (a area) runFamilyCase(c *core.Ctx, r *rand.Rand) {
 			if compactions > 1 {
 				c.Branch("fam/repeated-compaction")
 			}
-			fc.viewAll()
+			if banded {
+				fc.viewAllRepeat(8)
+			} else {
+				fc.viewAll()
+			}
 			continue
 		}
 		// flush: a subset of the metrics (so files cover different key ranges)
 		var entries []Entry
+		onlyBand := -1
+		if banded && r.Intn(5) > 0 {
+			onlyBand = r.Intn(3)
+		}
 		for _, m := range metricIDs {
-			if r.Intn(3) == 0 && len(metricIDs) > 1 {
+			if onlyBand >= 0 && bandOf[m] != onlyBand {
+				continue
+			}
+			if r.Intn(3) == 0 && len(metricIDs) > 1 && onlyBand < 0 {
 				continue
 			}
 			entries = append(entries, Entry{Metric: m, Block: genBlock(r, fc.schemas[m], pool, sp, r.Intn(3), nevers[m])})
@@ -1204,6 +1297,62 @@ func (a area) concurrentCompactions(c *core.Ctx, r *rand.Rand) {
 	c.NonTrivial()
 }
 
+// scenarioStraddle: level 1 holds a file for the metrics 100..105; two later level-0 files lie entirely
+// below (1..3) and entirely above (1000..1001) it, so PickL0Compaction does not pick it and the merged
+// output's key range [1..1001] spans it: level 1 then holds files with overlapping key ranges, and a
+// reader of 100..105 must still be given the first file whatever the map order of the level is.
+func (a area) scenarioStraddle(c *core.Ctx) {
+	fc := newFamCase(c, 0, 0)
+	if fc == nil {
+		return
+	}
+	defer fc.env.close()
+	mk := func(ms []uint32, v int64) []Entry {
+		var es []Entry
+		for i, m := range ms {
+			es = append(es, Entry{Metric: m, Block: sumBlock(4, 9, map[uint32]map[int]int64{2: {4: v, 9: v + int64(i)}, 65537: {5: 2 * v}})})
+		}
+		return es
+	}
+	mid := []uint32{100, 101, 102, 103, 104, 105}
+	fc.flush(mk(mid, 1), true)
+	fc.flush(mk(mid, 10), true)
+	fc.compact(c.Rng(9), 0, "huge", 0)
+	for round := 0; round < 3; round++ {
+		fc.flush(mk([]uint32{1, 2, 3}, int64(100*(round+1))), true)
+		fc.flush(mk([]uint32{1000, 1001}, int64(100*(round+1)+7)), true)
+		fc.compact(c.Rng(9), 0, "huge", 0)
+		fc.viewAllRepeat(40)
+	}
+	c.NonTrivial()
+}
+
+// scenarioFault: an output file of a merge compaction cannot be created (first, second, third file):
+// the compaction must return the error and leave the version and every reader's view unchanged; the
+// next compaction (no fault) must then succeed on the same inputs.
+func (a area) scenarioFault(c *core.Ctx) {
+	for _, k := range []int{1, 0, 2} {
+		fc := newFamCase(c, 1, 0) // FamilyOption.MaxFileSize = 1: one output file per metric
+		if fc == nil {
+			return
+		}
+		for i := 0; i < 3; i++ {
+			var es []Entry
+			for _, m := range []uint32{5, 6, 8, 9} {
+				es = append(es, Entry{Metric: m, Block: sumBlock(1, 3, map[uint32]map[int]int64{uint32(10 + i): {1: int64(m) + int64(i), 3: 7}})})
+			}
+			fc.flush(es, true)
+		}
+		fc.faultAt = k
+		fc.compact(c.Rng(10), 0, "tiny", 1)
+		fc.viewAllRepeat(4)
+		fc.compact(c.Rng(10), 0, "tiny", 1)
+		fc.viewAllRepeat(4)
+		fc.env.close()
+	}
+	c.NonTrivial()
+}
+
 // F2 witness blocks (Props/C03.lean Neg.dA, dB, dC): single-field blocks as a memory database
 // flushes them when some series of the metric did not write in the flushed window.
 func deadA() *Block {
@@ -1328,6 +1477,10 @@ func (a area) Run(c *core.Ctx) error {
 			a.scenarioFieldShift(c)
 		case i == 8 && c.Tier == "thorough":
 			a.concurrentCompactions(c, r)
+		case i == 9:
+			a.scenarioStraddle(c)
+		case i == 10:
+			a.scenarioFault(c)
 		case i%2 == 1:
 			a.runMergeCase(c, r)
 		default:
